@@ -218,6 +218,23 @@ class SemScn:
                 except ch.RemoteError:
                     pass
                 res[f"module-{mode}"] = (first, second, mod.__file__)
+            # --- remote_exec is not affected by the string-coercion settings of the gateway ----
+            rc = []
+            for s1, s2 in ((True, True), (False, True), (False, False), (True, False)):
+                gw.reconfigure(py2str_as_py3str=s1, py3str_as_py2str=s2)
+                try:
+                    # the verdicts are computed remotely and come back as ints: received *strings*
+                    # are legitimately subject to the setting
+                    ch = gw.remote_exec("channel.send(1 if type(__name__) is str and __name__ == '__channelexec__' else 0)")
+                    a = ch.receive(timeout=10)
+                    ch.waitclose(10)
+                    ch = gw.remote_exec(F.check_kwargs, text="t€", data=b"d", n=1)
+                    b = ch.receive(timeout=10)
+                    ch.waitclose(10)
+                    rc.append((s1, s2, a, b))
+                except BaseException as e:  # noqa: BLE001
+                    rc.append((s1, s2, "EXC", f"{type(e).__name__}: {str(e).strip().splitlines()[-1][:100]}"))
+            res["after-reconfigure"] = rc
             S.ctx["res"] = res
             S.ctx["done"] = True
             S.group.terminate(timeout=1.0)
@@ -261,6 +278,9 @@ class SemScn:
         ci = r["close-inside"]
         if not (isinstance(ci, tuple) and ci[0] == "refused"):
             return V("close-inside", f"channel.close() from inside remote_exec was not refused: {ci}")
+        for s1, s2, a, ok in r["after-reconfigure"]:
+            if a != 1 or ok != 1:
+                return V("reconfigure-affects-remote-exec", f"after gateway.reconfigure(py2str_as_py3str={s1}, py3str_as_py2str={s2}) remote_exec gave {a!r} / kwargs equal: {ok!r}")
         cip = r["close-inside-after-peer-close"]
         if cip != [("plain", "refused"), ("error", "refused"), ("file", "refused")]:
             return V("close-inside", f"after the initiating side closed its end, close() from inside the still running remote_exec: {cip}")
